@@ -376,8 +376,8 @@ CallChecks(e) ==
              unspec == ok /\ KBase(e.kt) = "comb" /\ e.spk.scheme = "ed" /\ HasKey(pre.pairs, K_secp256k1)
          IN SelectSeq(RecChecks(e.kt, c, e.facts) \o MaybeExt(e, c) \o ReadBack(e),
                       \* (what every record satisfies whatever produced it stays: its node id is the id of the key its
-                      \*  own public-key accessor returns)
-                      LAMBDA x : ~(unspec /\ x.p \in {"C05", "C10", "C04", "C12", "C15"} /\ x.c # "nid_from_public_key")))
+                      \*  own public-key accessor returns; it decodes back, prints and compares like any other -- C10 C04 C12 C15)
+                      LAMBDA x : ~(unspec /\ x.p = "C05")))
 
 BuildChecks(e) ==
   LET B == Build(e.kt, e.calls, e.spk, e.fault, SigLen(e))
